@@ -1541,6 +1541,63 @@ func massRemovalProbe(m *meta, rng *rand.Rand, round int) {
 
 // closeSyncStorm (C08, C07): many Sync and Clear callers parked on the full rings of a two-shard cache while Close
 // runs: every one of them returns (with an error or not) once Close has broadcast shutdown.
+// fenceBatchProbe (C07, deterministic set-up): the worker has dequeued a write and waits for the shard lock (held
+// by the harness through VerifHoldShard); meanwhile 2..40 callers publish fences (Sync, Clear) that all land in the
+// ring, so that the worker's next batch carries many result channels at once. After the lock is released every one of
+// those calls must return: each fence of a batch is acknowledged, however many there are.
+func fenceBatchProbe(m *meta, rng *rand.Rand, round int) {
+	pol := pick(rng, []kioshun.EvictionPolicy{kioshun.LRU, kioshun.SieveTinyLFU, kioshun.FIFO, kioshun.LFU})
+	callers := pick(rng, []int{2, 8, 9, 12, 17, 33, 40})
+	conf := kioshun.Config{MaxSize: 64, ShardCount: 1, EvictionPolicy: pol, WriteBufferSize: 64, WriteBatchSize: pick(rng, []int{0, 64, 16, 9, 3})}
+	ctx := fmt.Sprintf("fence batch round %d cfg %+v callers %d", round, conf, callers)
+	c, err := kioshun.New[int, int](conf)
+	must(err)
+	watch(ctx)
+	defer unwatch()
+	c.VerifHoldShard(0, true)
+	held := true
+	defer func() {
+		if held {
+			c.VerifHoldShard(0, false)
+		}
+		c.Close()
+	}()
+	c.SetAsync(1, 1, kioshun.NoExpiration)
+	for t0 := time.Now(); c.VerifQueueDepth(0) != 0 && time.Since(t0) < 2*time.Second; {
+		time.Sleep(100 * time.Microsecond)
+	}
+	var returned atomic.Int64
+	var wg sync.WaitGroup
+	for g := 0; g < callers; g++ {
+		wg.Add(1)
+		go func(g int) {
+			defer wg.Done()
+			if g%5 == 4 {
+				c.Clear()
+			} else {
+				c.Sync()
+			}
+			returned.Add(1)
+		}(g)
+	}
+	for t0 := time.Now(); c.VerifQueueDepth(0) < int64(callers) && time.Since(t0) < 2*time.Second; {
+		time.Sleep(100 * time.Microsecond)
+	}
+	depth := c.VerifQueueDepth(0)
+	c.VerifHoldShard(0, false)
+	held = false
+	done := make(chan struct{})
+	go func() { wg.Wait(); close(done) }()
+	select {
+	case <-done:
+		m.count("fence_batch_rounds")
+	case <-time.After(5 * time.Second):
+		for _, p := range []string{"C07"} {
+			m.violate(p, fmt.Sprintf("%s: %d concurrent Sync/Clear calls had published their fences (ring depth %d) behind a worker waiting for the shard lock; 5 s after the lock was released only %d of them have returned: the rest wait for an acknowledgement nobody will send", ctx, callers, depth, returned.Load()), ctx)
+		}
+	}
+}
+
 func closeSyncStorm(m *meta, rng *rand.Rand, round int) {
 	pol := pick(rng, []kioshun.EvictionPolicy{kioshun.LRU, kioshun.SieveTinyLFU, kioshun.FIFO, kioshun.LFU})
 	ctx := fmt.Sprintf("close/sync storm round %d policy %v", round, pol)
@@ -1731,6 +1788,79 @@ func flickerProbe(m *meta) {
 	}
 }
 
+// busyNotifierProbe (C07 / C06, deterministic): the removal notifier is parked inside a listener call while further
+// removals are staged behind it (the wake token stays latched) and then one maintenance call runs - Clear, Sync,
+// Cleanup, a Delete of an absent key, or nothing. When the listener returns, every staged notification must be
+// delivered with no further cache traffic: the notifier may not go back to sleep while a shard still holds undelivered
+// removals. Counted with the process-wide staged / delivered counters, so the expectation is policy independent.
+func busyNotifierProbe(m *meta) {
+	pols := []kioshun.EvictionPolicy{kioshun.LRU, kioshun.LFU, kioshun.FIFO, kioshun.SieveTinyLFU}
+	acts := []string{"Clear", "Sync", "Cleanup", "Delete(absent)", "nothing", "Clear twice"}
+	for pi, pol := range pols {
+		for ai, act := range acts {
+			shards := []int{1, 2}[(pi+ai)%2]
+			conf := kioshun.Config{MaxSize: int64(shards), ShardCount: shards, EvictionPolicy: pol}
+			ctx := fmt.Sprintf("busy notifier probe cfg %+v action %s", conf, act)
+			entered := make(chan struct{})
+			release := make(chan struct{})
+			var first atomic.Bool
+			staged0, delivered0 := kioshun.VerifStagedCount(), kioshun.VerifDeliveredCount()
+			c, err := kioshun.New[int, int](conf, kioshun.WithOnRemove(func(k, v int, r kioshun.RemovalReason) {
+				if first.CompareAndSwap(false, true) {
+					close(entered)
+					<-release
+				}
+			}))
+			must(err)
+			watch(ctx)
+			k := 0
+			for ; k < 64 && kioshun.VerifStagedCount() == staged0; k++ {
+				c.Set(k, k, kioshun.NoExpiration)
+				c.Delete(k - 1)
+			}
+			select {
+			case <-entered:
+			case <-time.After(3 * time.Second):
+				unwatch()
+				c.Close()
+				m.violate("C07", fmt.Sprintf("%s: a removal was staged (Set/Delete of keys 0..%d) but the listener was not called within 3 s", ctx, k), ctx)
+				continue
+			}
+			for j := 0; j < 6; j++ { // more removals behind the parked notifier
+				c.Set(k+j, j, kioshun.NoExpiration)
+				c.Delete(k + j - 1)
+			}
+			switch act {
+			case "Clear":
+				c.Clear()
+			case "Clear twice":
+				c.Clear()
+				c.Clear()
+			case "Sync":
+				c.Sync()
+			case "Cleanup":
+				c.Cleanup()
+			case "Delete(absent)":
+				c.Delete(-5)
+			}
+			want := kioshun.VerifStagedCount() - staged0
+			close(release)
+			deadline := time.Now().Add(3 * time.Second)
+			for kioshun.VerifDeliveredCount()-delivered0 < want && time.Now().Before(deadline) {
+				time.Sleep(time.Millisecond)
+			}
+			if got := kioshun.VerifDeliveredCount() - delivered0; got != want {
+				for _, p := range []string{"C07", "C06"} {
+					m.violate(p, fmt.Sprintf("%s: %d removals were staged for the listener while the notifier was busy inside a listener call, then %s ran; 3 s after the listener returned only %d have been delivered and nothing else touches the cache: the notifier sleeps with work pending", ctx, want, act, got), ctx)
+				}
+			}
+			unwatch()
+			c.Close()
+			m.count("busy_notifier_probes")
+		}
+	}
+}
+
 // listenerCloseProbe: a removal listener that calls Close blocks forever (finding F7).
 func listenerCloseProbe(m *meta) {
 	var c *kioshun.Cache[int, int]
@@ -1892,6 +2022,97 @@ func expiryRace(m *meta, rng *rand.Rand, round int) {
 }
 
 // tornRace (C11): one writer rewrites one non-expiring key in a tight loop while readers copy its multi-word value.
+// pausedReaderProbe (C11 / C02, deterministic, one goroutine): the lock-free SieveTinyLFU reader copies an item's
+// value and deadline AFTER its table lookup, possibly long after (it can be descheduled in between), while the writer
+// goes on updating, evicting, rejecting and re-admitting entries. VerifLookup is that lookup; Resume is the copy. Every
+// paused read, resumed any number of writes later, must still deliver the pair one single Set stored for ITS key -
+// item fields are immutable once an item has been reachable from the table (no pooling or recycling of items).
+func pausedReaderProbe(m *meta, rng *rand.Rand, round int) {
+	capN := pick(rng, []int64{8, 64, 512, 512})
+	conf := kioshun.Config{MaxSize: capN, ShardCount: 1, EvictionPolicy: kioshun.SieveTinyLFU, StatsEnabled: rng.Intn(2) == 0}
+	ctx := fmt.Sprintf("paused reader round %d cfg %+v", round, conf)
+	c, err := kioshun.New[int, big](conf)
+	must(err)
+	defer c.Close()
+	type paused struct {
+		key  int
+		id   uint64
+		exp  int64
+		read kioshun.VerifPausedRead[int, big]
+		at   int
+	}
+	var held []paused
+	writes := 0
+	id := uint64(0)
+	set := func(k int, ttl time.Duration) {
+		id++
+		writes++
+		if err := c.Set(k, mkBig(id<<20|uint64(k), int64(ttl)), ttl); err != nil {
+			return
+		}
+		if pr, ok := c.VerifLookup(k); ok {
+			_, v, e := pr.Resume()
+			held = append(held, paused{key: k, id: v.id, exp: e, read: pr, at: writes})
+			if len(held) > 48 {
+				held = held[1:]
+			}
+		}
+	}
+	check := func(what string) bool {
+		for _, p := range held {
+			k, v, e := p.read.Resume()
+			if k != p.key || v.id != p.id || e != p.exp || !v.ok() {
+				m.violate("C11", fmt.Sprintf("%s: a lock-free Get(%d) located its entry after write #%d (value id %d, deadline %d) and was descheduled; resumed after %s (write #%d) it copies key=%d value id=%d (consistent=%v) deadline=%d out of that entry: a mixture of two writes - the item was modified after it had been published", ctx, p.key, p.at, p.id, p.exp, what, writes, k, v.id, v.ok(), e), ctx)
+				m.violate("C02", fmt.Sprintf("%s: a Get(%d) that located its entry at write #%d returns, resumed at write #%d, the value id %d written for key %d", ctx, p.key, p.at, writes, v.id, k), ctx)
+				return false
+			}
+		}
+		return true
+	}
+	n := int(capN)
+	for i := 0; i < n; i++ {
+		set(i, time.Hour)
+	}
+	heat := func() {
+		for i := 0; i < n; i++ {
+			c.Get(i)
+		}
+	}
+	for r := 0; r < 6; r++ {
+		heat()
+	}
+	fresh := 100000
+	for step := 0; step < 1200; step++ {
+		var what string
+		switch x := rng.Intn(20); {
+		case x < 12: // a new key, read once right away
+			fresh++
+			set(fresh, time.Duration(1+rng.Intn(1000))*time.Second)
+			c.Get(fresh)
+			what = fmt.Sprintf("Set(%d) of a new key", fresh)
+		case x < 15: // update of a resident
+			k := rng.Intn(n)
+			set(k, time.Hour)
+			what = fmt.Sprintf("Set(%d) update", k)
+		case x < 16:
+			k := fresh - rng.Intn(8)
+			c.Delete(k)
+			what = fmt.Sprintf("Delete(%d)", k)
+		case x < 17:
+			k := fresh - rng.Intn(8)
+			set(k, time.Duration(1+rng.Intn(1000))*time.Second)
+			what = fmt.Sprintf("Set(%d) of a recent key", k)
+		default:
+			heat()
+			what = "reads of every hot key"
+		}
+		if !check(what) {
+			break
+		}
+	}
+	m.count("paused_reader_probes")
+}
+
 func tornRace(m *meta, rng *rand.Rand, round int) {
 	conf := kioshun.Config{MaxSize: pick(rng, []int64{64, 64, 0}), ShardCount: 1, EvictionPolicy: pick(rng, []kioshun.EvictionPolicy{kioshun.SieveTinyLFU, kioshun.SieveTinyLFU, kioshun.LRU, kioshun.FIFO, kioshun.LFU})}
 	ctx := fmt.Sprintf("torn race round %d cfg %+v", round, conf)
@@ -2093,11 +2314,14 @@ func streamConc(o opts) {
 			inlineOvertake(m, rng, r)
 			closedSetAsync(m, rng, r)
 			closeSyncStorm(m, rng, r)
+			fenceBatchProbe(m, rng, r)
+			fenceBatchProbe(m, rng, r)
 			doubleClear(m, rng, r)
 			m.nontrivial(fmt.Sprintf("async+close/%d", r%16))
 		case 3:
 			tableRace(m, rng, r)
 			tornRace(m, rng, r)
+			pausedReaderProbe(m, rng, r)
 			pairingRace(m, rng, r)
 			m.nontrivial(fmt.Sprintf("table/%d", r%16))
 		}
@@ -2107,6 +2331,7 @@ func streamConc(o opts) {
 	}
 	flickerProbe(m)
 	staleAfterDeleteProbe(m)
+	busyNotifierProbe(m)
 	listenerCloseProbe(m)
 	closeDrainNotifyProbe(m)
 	lateDrainProbe(m)
